@@ -121,6 +121,9 @@ def wl_honest(ctx, config):
             elif kind == 7:
                 # key count mismatch: one key fewer / one more than the signature says
                 vcase(ctx, config, K, sb, "mut:list_shorter", on=K.on[:-1], off=K.off[:-1], on_obj=K.on_obj[:-1], off_obj=K.off_obj[:-1])
+                if nk < 255:
+                    P = mulG(rng.randrange(1, n)); Po = K.obj(P)
+                    vcase(ctx, config, K, sb, "mut:list_longer", on=K.on + [P], off=K.off + [P], on_obj=K.on_obj + [Po], off_obj=K.off_obj + [Po])
             else:
                 e0 = bytearray(sb); e0[1 + rng.randrange(32)] ^= 1 << rng.randrange(8); vcase(ctx, config, K, bytes(e0), "mut:e0")
 
